@@ -74,9 +74,11 @@ class RecSandbox(core.Sandbox):
         super().__init__(world)
         self.ctx = ctx
 
-    def run(self, argv, plan=None, cwd="", tz="UTC", timeout=60.0):
+    def run(self, argv, plan=None, cwd="", tz="UTC", timeout=60.0, config=None):
         plan = plan or {}
-        res = super().run(argv, plan, cwd, tz, timeout)
+        res = super().run(argv, plan, cwd, tz, timeout, config)
+        if config is not None:
+            self.ctx.bump("user_configuration_file", configured=1, fired=1)
         ctx = self.ctx
         ctx.execs += 1
         ctx.wall_exec += res.wall
